@@ -167,6 +167,14 @@ Theorem C01_reserve_walk_closed_form :
   if n <=? avail then None else Some (n - avail).
 Proof. exact reserve_walk_closed_form. Qed.
 
+(* where the position goes when a typed prepared slice is committed: RawChunk::set_pos_addr_and_align_from of the CURRENT source
+   (cut out and translated on every run) is the model's commit_pos - re-align in bump direction exactly when the element
+   alignment is below the minimum alignment *)
+Theorem C01_source_commit_position_is_the_models :
+  forall (c : cfg) m ea x, valid_min_align m -> 0 <= x -> x + m - 1 < W ->
+  AllocSites.commit_pos_from (up c) m x ea = Ok (commit_pos c m ea false x).
+Proof. exact commit_pos_refines. Qed.
+
 Print Assumptions C01_live_blocks.
 Print Assumptions C01_step_inv_partial.
 Print Assumptions C01_reachable_partial.
@@ -187,3 +195,4 @@ Print Assumptions C01_source_dealloc_position_is_the_models.
 Print Assumptions C01_source_grow_up_is_the_models.
 Print Assumptions C01_source_grow_down_is_the_models.
 Print Assumptions C01_reserve_walk_closed_form.
+Print Assumptions C01_source_commit_position_is_the_models.
